@@ -37,6 +37,8 @@ func FuzzXMSSVerify(f *testing.F) {
 	f.Add([]byte{3, 4, 63, 2, 2, 3, 15, 0, 4})
 	f.Add([]byte{1, 6, 1, 1, 0, 0, 1, 0, 3, 9, 9, 9, 9, 9, 9, 9, 9, 0})
 	f.Add([]byte{0, 0, 36, 0, 1, 16, 0, 0, 0})
+	f.Add([]byte{2, 8, 3, 0, 0, 1, 0, 0, 3})
+	f.Add([]byte{3, 8, 20, 0, 0, 2, 0, 0, 3})
 	f.Add([]byte{})
 	f.Fuzz(func(t *testing.T, b []byte) {
 		msgLen := -1
